@@ -112,6 +112,10 @@ struct Unit {
     elem: String,
     /// modules of the world imported directly (for the record only)
     imports: Vec<String>,
+    /// big allocation work: only scheduled with strides >= 17 (a collection per k-th allocation is
+    /// quadratic in the live heap)
+    #[serde(default)]
+    big: bool,
 }
 
 #[derive(Serialize, Deserialize, Clone, Debug)]
@@ -153,6 +157,18 @@ struct Scenario {
     root: String,
     root_unit: i64,
     jitter: bool,
+    /// control experiment: run the threads' programs one after the other on one OS thread
+    /// (senders before receivers), same stride / quarantine
+    #[serde(default)]
+    sequential: bool,
+    /// control experiment: quarantine hook off (frees really free)
+    #[serde(default)]
+    no_quarantine: bool,
+    /// what the root imports BEFORE the concurrent phase: "none" (everything cold), "std" (c14.rt and
+    /// every std module the programs use, i.e. all EXTERN modules; c14.m* stay cold and are imported
+    /// concurrently), "all"
+    #[serde(default)]
+    preload: String,
     world: World,
     /// element type of channel i
     chans: Vec<String>,
@@ -223,11 +239,10 @@ fn gen_modules(rng: &mut Rng) -> Vec<(String, String)> {
     ms
 }
 
-fn alloc_work(rng: &mut Rng, s: &mut String) -> String {
+fn alloc_work(rng: &mut Rng, s: &mut String, big: bool) -> String {
     // returns an Int expression; defines helpers in `s`
-    let big = rng.chance(1, 4);
-    let n = 200 + rng.below(if big { 6000 } else { 1500 });
-    let rounds = 1 + rng.below(4);
+    let n = if big { 1500 + rng.below(3000) } else { 60 + rng.below(500) };
+    let rounds = 1 + rng.below(3);
     s.push_str("type R = { a : Int, s : String, l : Array Int }\n");
     s.push_str("type L = | N | C R L\n");
     s.push_str("rec let build n acc : Int -> L -> L = if n == 0 then acc else build (n - 1) (C { a = n + rt.jitter n, s = \"x\", l = [n, n + 1] } acc)\n");
@@ -239,7 +254,7 @@ fn alloc_work(rng: &mut Rng, s: &mut String) -> String {
     format!("rounds {} 0", rounds)
 }
 
-fn gen_plain(rng: &mut Rng) -> Unit {
+fn gen_plain(rng: &mut Rng, big: bool) -> Unit {
     let mut s = String::new();
     let mut imports = vec![];
     s.push_str("let rt = import! c14.rt\n");
@@ -272,14 +287,14 @@ fn gen_plain(rng: &mut Rng) -> Unit {
         imports.push(STD_POOL[j].0.rsplit("import! ").next().unwrap().lines().next().unwrap().to_string());
         terms.push(STD_POOL[j].1.to_string());
     }
-    let w = alloc_work(rng, &mut s);
+    let w = alloc_work(rng, &mut s, big);
     terms.push(w);
     s.push_str(&terms.join(" + "));
     s.push('\n');
-    Unit { kind: "plain".into(), src: s, recv_src: String::new(), elem: String::new(), imports }
+    Unit { kind: "plain".into(), src: s, recv_src: String::new(), elem: String::new(), imports, big }
 }
 
-fn gen_pair(rng: &mut Rng) -> Unit {
+fn gen_pair(rng: &mut Rng, big: bool) -> Unit {
     let elem = if rng.chance(1, 2) { "Int" } else { "String" };
     let count = 3 + rng.below(30);
     let j = rng.below(6);
@@ -295,7 +310,7 @@ fn gen_pair(rng: &mut Rng) -> Unit {
     if elem == "String" {
         s.push_str("let { (++) } = import! std.string\nlet { show } = import! std.show\n");
     }
-    let w = alloc_work(rng, &mut s);
+    let w = alloc_work(rng, &mut s, big);
     s.push_str(&format!(
         "rec let go sender i acc =\n    if i == {} then wrap acc\n    else\n        do _ = send sender {}\n        let j = rt.jitter i\n        go sender (i + 1) (acc + i + j)\n",
         count, payload
@@ -313,7 +328,7 @@ fn gen_pair(rng: &mut Rng) -> Unit {
     if elem == "String" {
         r.push_str("let string = import! std.string\n");
     }
-    let w2 = alloc_work(rng, &mut r);
+    let w2 = alloc_work(rng, &mut r, big);
     r.push_str(&format!(
         "rec let go receiver n acc naps =\n    if n == 0 then wrap acc\n    else\n        do x = recv receiver\n        match x with\n        | Ok v -> go receiver (n - 1) (acc + {}) naps\n        | Err _ ->\n            if naps == 0 then wrap (0 - 1)\n            else\n                let z = rt.nap 2\n                go receiver n (acc + z) (naps - 1)\n",
         val
@@ -325,17 +340,19 @@ fn gen_pair(rng: &mut Rng) -> Unit {
         recv_src: r,
         elem: elem.into(),
         imports: vec![format!("c14.m{}", j), format!("c14.m{}", j2), "std.channel".into()],
+        big,
     }
 }
 
 fn gen_world(id: usize, rng: &mut Rng, n_plain: usize, n_pair: usize) -> World {
     let modules = gen_modules(rng);
     let mut units = vec![];
-    for _ in 0..n_plain {
-        units.push(gen_plain(rng));
+    // the last plain unit and the last pair are "big"
+    for i in 0..n_plain {
+        units.push(gen_plain(rng, i + 1 == n_plain));
     }
-    for _ in 0..n_pair {
-        units.push(gen_pair(rng));
+    for i in 0..n_pair {
+        units.push(gen_pair(rng, i + 1 == n_pair));
     }
     World { id, modules, units, solo: vec![] }
 }
@@ -343,11 +360,17 @@ fn gen_world(id: usize, rng: &mut Rng, n_plain: usize, n_pair: usize) -> World {
 fn gen_scenario(id: usize, rng: &mut Rng, world: &World, n: usize) -> Scenario {
     let seed = rng.next_u64();
     let mut r = Rng::new(seed);
-    let plain: Vec<usize> = (0..world.units.len()).filter(|i| world.units[*i].kind == "plain").collect();
-    let pairs: Vec<usize> = (0..world.units.len()).filter(|i| world.units[*i].kind == "pair").collect();
     let stride = *r.pick(&[1usize, 2, 3, 5, 17, 64, 0]);
-    let async_vm = r.chance(1, 4);
+    let fits = |i: &usize| !world.units[*i].big || stride == 0 || stride >= 17;
+    let plain: Vec<usize> = (0..world.units.len()).filter(|i| world.units[*i].kind == "plain").filter(fits).collect();
+    let pairs: Vec<usize> = (0..world.units.len()).filter(|i| world.units[*i].kind == "pair").filter(fits).collect();
+    let async_vm = r.chance(1, 8);
     let warm = r.chance(1, 3);
+    let preload = match r.below(8) {
+        0..=1 => "none",
+        2..=6 => "std",
+        _ => "all",
+    };
     let root = match r.below(10) {
         0..=4 => "none",
         5..=7 => "collect",
@@ -387,6 +410,11 @@ fn gen_scenario(id: usize, rng: &mut Rng, world: &World, n: usize) -> Scenario {
     }
     let mut class = String::new();
     class.push_str(if async_vm { "async" } else { "sync" });
+    match preload {
+        "none" => class.push_str("+cold-externs"),
+        "all" => class.push_str("+preloaded"),
+        _ => {}
+    }
     if n_pairs > 0 {
         class.push_str("+channels");
     }
@@ -397,6 +425,7 @@ fn gen_scenario(id: usize, rng: &mut Rng, world: &World, n: usize) -> Scenario {
         class.push_str("+root-");
         class.push_str(root);
     }
+    class.push_str(if stride == 0 { "+natural-gc" } else { "+forced-gc" });
     Scenario {
         id,
         seed,
@@ -408,6 +437,9 @@ fn gen_scenario(id: usize, rng: &mut Rng, world: &World, n: usize) -> Scenario {
         root: root.into(),
         root_unit: if plain.is_empty() { -1 } else { *r.pick(&plain) as i64 },
         jitter: r.chance(4, 5),
+        sequential: false,
+        no_quarantine: false,
+        preload: preload.into(),
         world: world.clone(),
         chans,
         threads,
@@ -574,23 +606,87 @@ fn child_main(path: &str) {
         let _g = rt.as_ref().map(|r| r.enter());
         let _ = root.run_expr::<VmInt>("c14_warm", "1 + 1");
     }
-    let mut chans: Vec<Chan> = sc.chans.iter().map(|e| make_chan(&root, e, rt.as_ref()).expect("channel")).collect();
+    if sc.preload == "std" || sc.preload == "all" {
+        let _g = rt.as_ref().map(|r| r.enter());
+        let mut names: Vec<String> = vec![];
+        let mut sources: Vec<&String> = sc.world.modules.iter().map(|m| &m.1).collect();
+        for t in &sc.threads {
+            let u = &sc.world.units[t.unit];
+            sources.push(&u.src);
+            sources.push(&u.recv_src);
+        }
+        if sc.root == "run" && sc.root_unit >= 0 {
+            sources.push(&sc.world.units[sc.root_unit as usize].src);
+        }
+        {
+            {
+                for l in sources.iter().flat_map(|s| s.lines()) {
+                    if let Some(p) = l.find("import! ") {
+                        let m: String = l[p + 8..].chars().take_while(|c| c.is_alphanumeric() || *c == '.' || *c == '_').collect();
+                        if !names.contains(&m) && (sc.preload == "all" || !m.starts_with("c14.m")) {
+                            names.push(m);
+                        }
+                    }
+                }
+            }
+        }
+        let mut src = String::new();
+        for m in &names {
+            src.push_str(&format!("let _ = import! {}\n", m));
+        }
+        src.push_str("0\n");
+        let r = catch_unwind(AssertUnwindSafe(|| root.run_expr::<VmInt>("c14_preload", &src).map_err(|e| e.to_string())));
+        match r {
+            Ok(Ok(_)) => {}
+            Ok(Err(e)) => {
+                println!("SETUP-ERROR preloading modules on the root thread failed: {}", e.replace('\n', " | ").chars().take(600).collect::<String>());
+                let _ = std::io::stdout().flush();
+                std::process::exit(4)
+            }
+            Err(_) => {
+                println!("SETUP-ERROR preloading modules on the root thread panicked");
+                let _ = std::io::stdout().flush();
+                std::process::exit(4)
+            }
+        }
+    }
+    // set-up failures (still single OS thread, but on an async VM the imports already run on
+    // spawned tasks) are reported as such
+    let setup_fail = |what: String| -> ! {
+        println!("SETUP-ERROR {}", what.replace('\n', " | ").chars().take(600).collect::<String>());
+        let _ = std::io::stdout().flush();
+        std::process::exit(4)
+    };
+    let mut chans: Vec<Chan> = vec![];
+    for e in &sc.chans {
+        match catch_unwind(AssertUnwindSafe(|| make_chan(&root, e, rt.as_ref()))) {
+            Ok(Ok(c)) => chans.push(c),
+            Ok(Err(err)) => setup_fail(format!("creating a channel on the root thread failed: {}", err)),
+            Err(_) => setup_fail("creating a channel on the root thread panicked".into()),
+        }
+    }
     // all Gluon threads are created up front (new_thread locks the parent's context)
     let mut gthreads: Vec<RootedThread> = vec![];
     for t in &sc.threads {
         let th = if t.parent < 0 { root.new_thread() } else { gthreads[t.parent as usize].new_thread() };
         gthreads.push(th.expect("new_thread"));
     }
-    gluon_vm::verif::set_quarantine(true);
+    gluon_vm::verif::set_quarantine(!sc.no_quarantine);
     let _ = gluon_vm::verif::take_events();
     gluon_vm::verif::set_stride(sc.stride);
     let extra = if sc.root == "none" { 0 } else { 1 };
-    let barrier = Arc::new(Barrier::new(sc.threads.len() + extra));
+    let barrier = Arc::new(Barrier::new(if sc.sequential { extra } else { sc.threads.len() + extra }));
     let done = Arc::new(AtomicU64::new(0));
     let total = sc.threads.len() as u64;
     let handle = rt.as_ref().map(|r| r.handle().clone());
     let mut joins = vec![];
-    for (i, t) in sc.threads.iter().enumerate() {
+    let mut seq_results: Vec<(usize, String)> = vec![];
+    let mut order: Vec<usize> = (0..sc.threads.len()).collect();
+    if sc.sequential {
+        order.sort_by_key(|i| if sc.threads[*i].role == "recv" { 1 } else { 0 });
+    }
+    for i in order {
+        let t = &sc.threads[i];
         let th = gthreads[i].clone();
         let u = &sc.world.units[t.unit];
         let (src, arg) = match t.role.as_str() {
@@ -614,6 +710,12 @@ fn child_main(path: &str) {
         let done = done.clone();
         let handle = handle.clone();
         let (delay, yields) = (t.delay_us, t.yields);
+        if sc.sequential {
+            let r = run_one(&th, &format!("c14_t{}", i), &src, arg, handle.as_ref());
+            println!("DONE {} {}", i, r);
+            seq_results.push((i, r));
+            continue;
+        }
         joins.push(
             std::thread::Builder::new()
                 .name(format!("c14-t{}", i))
@@ -675,6 +777,10 @@ fn child_main(path: &str) {
     for j in joins {
         rep.results.push(j.join().unwrap_or_else(|_| "PANIC (thread)".into()));
     }
+    if sc.sequential {
+        seq_results.sort();
+        rep.results = seq_results.into_iter().map(|x| x.1).collect();
+    }
     if let Some(j) = root_join {
         rep.root_result = j.join().unwrap_or_else(|_| "PANIC (root thread)".into());
     }
@@ -694,7 +800,36 @@ fn child_main(path: &str) {
 // ------------------------------------------------------------------------------------------
 // driver
 
+/// (cpu ticks of the process, per-thread "name:state:wchan") from /proc — used to tell a
+/// deadlock (all threads asleep, no CPU time consumed) from a scenario that is merely slow.
+fn proc_sample(pid: u32) -> (u64, Vec<String>) {
+    let mut cpu = 0u64;
+    let mut threads = vec![];
+    if let Ok(rd) = std::fs::read_dir(format!("/proc/{}/task", pid)) {
+        for e in rd.flatten() {
+            let p = e.path();
+            let stat = std::fs::read_to_string(p.join("stat")).unwrap_or_default();
+            // pid (comm) state ... utime(14) stime(15)
+            if let (Some(a), Some(b)) = (stat.find('('), stat.rfind(')')) {
+                let comm = &stat[a + 1..b];
+                let rest: Vec<&str> = stat[b + 1..].split_whitespace().collect();
+                let state = rest.first().cloned().unwrap_or("?");
+                let ut: u64 = rest.get(11).and_then(|x| x.parse().ok()).unwrap_or(0);
+                let st: u64 = rest.get(12).and_then(|x| x.parse().ok()).unwrap_or(0);
+                cpu += ut + st;
+                let wchan = std::fs::read_to_string(p.join("wchan")).unwrap_or_default();
+                threads.push(format!("{}:{}:{}", comm, state, wchan.trim()));
+            }
+        }
+    }
+    threads.sort();
+    (cpu, threads)
+}
+
 struct ChildOutcome {
+    /// at timeout: CPU ticks (1/100 s) consumed during the last second before the kill, thread states
+    cpu_last_s: u64,
+    thread_states: Vec<String>,
     status: String, // "exit:0" | "exit:N" | "signal:N" | "timeout"
     stdout: String,
     stderr: String,
@@ -708,16 +843,31 @@ fn run_child(mode: &str, file: &std::path::Path, timeout: Duration) -> ChildOutc
     let base = file.with_extension("");
     let out_path = base.with_extension(format!("{}.stdout", mode));
     let err_path = base.with_extension(format!("{}.stderr", mode));
-    let mut ch = Command::new(std::env::current_exe().expect("current_exe"))
-        .arg(mode)
-        .arg(file)
-        .stdin(Stdio::null())
-        .stdout(std::fs::File::create(&out_path).expect("stdout file"))
-        .stderr(std::fs::File::create(&err_path).expect("stderr file"))
-        .env("RUST_BACKTRACE", "0")
-        .spawn()
-        .expect("spawn child");
+    let mut tries = 0;
+    let mut ch = loop {
+        let r = Command::new(std::env::current_exe().expect("current_exe"))
+            .arg(mode)
+            .arg(file)
+            .stdin(Stdio::null())
+            .stdout(std::fs::File::create(&out_path).expect("stdout file"))
+            .stderr(std::fs::File::create(&err_path).expect("stderr file"))
+            .env("RUST_BACKTRACE", "0")
+            .spawn();
+        match r {
+            Ok(c) => break c,
+            Err(e) => {
+                // EAGAIN under load (other builders): wait and retry; this is the harness, not gluon
+                tries += 1;
+                if tries > 50 {
+                    panic!("cannot spawn child process: {}", e);
+                }
+                std::thread::sleep(Duration::from_millis(200));
+            }
+        }
+    };
     let status;
+    let mut cpu_last_s = 0;
+    let mut thread_states = vec![];
     loop {
         match ch.try_wait().expect("try_wait") {
             Some(st) => {
@@ -730,6 +880,11 @@ fn run_child(mode: &str, file: &std::path::Path, timeout: Duration) -> ChildOutc
             }
             None => {
                 if t0.elapsed() > timeout {
+                    let (c0, _) = proc_sample(ch.id());
+                    std::thread::sleep(Duration::from_millis(1000));
+                    let (c1, ts) = proc_sample(ch.id());
+                    cpu_last_s = c1.saturating_sub(c0);
+                    thread_states = ts;
                     let _ = ch.kill();
                     let _ = ch.wait();
                     status = "timeout".into();
@@ -746,7 +901,7 @@ fn run_child(mode: &str, file: &std::path::Path, timeout: Duration) -> ChildOutc
         }
         s
     };
-    let o = ChildOutcome { status, stdout: rd(&out_path), stderr: rd(&err_path), wall_ms: t0.elapsed().as_millis() as u64 };
+    let o = ChildOutcome { cpu_last_s, thread_states, status, stdout: rd(&out_path), stderr: rd(&err_path), wall_ms: t0.elapsed().as_millis() as u64 };
     let _ = std::fs::remove_file(&out_path);
     let _ = std::fs::remove_file(&err_path);
     o
@@ -785,16 +940,23 @@ fn judge(sc: &Scenario, o: &ChildOutcome, watchdog_s: u64) -> Judged {
     if o.status == "timeout" {
         parts.push("timeout".to_string());
         let finished: Vec<String> = done.iter().map(|l| l.split(' ').nth(1).unwrap_or("?").to_string()).collect();
+        // asleep = no thread runnable and (almost) no CPU consumed in the last second: a deadlock;
+        // otherwise the process was still computing (livelock / runaway / too slow): reported apart
+        let asleep = o.cpu_last_s <= 2 && !o.thread_states.iter().any(|t| t.contains(":R:"));
+        let kind = if asleep { "deadlock" } else { "no-termination-busy" };
         failures.push(serde_json::json!({
-            "key": format!("deadlock:{}", sc.class),
-            "what": format!("scenario did not finish within the {} s watchdog (N={}, class {}, stride {}); threads that finished: [{}] of {}", watchdog_s, sc.n, sc.class, sc.stride, finished.join(","), sc.threads.len()),
-            "expected": "all threads finish", "observed": format!("timeout; finished {:?}; stderr: {}", finished, stderr_tail),
+            "key": format!("{}:{}", kind, sc.class),
+            "what": format!("scenario did not finish within the {} s watchdog (N={}, class {}, stride {}); threads that finished: [{}] of {}; in the last second the process used {} CPU ticks; {}", watchdog_s, sc.n, sc.class, sc.stride, finished.join(","), sc.threads.len(), o.cpu_last_s,
+                if asleep { "every OS thread was asleep (blocked)" } else { "it was still running" }),
+            "expected": "all threads finish", "observed": format!("timeout; finished {:?}; threads {:?}; stderr: {}", finished, o.thread_states, stderr_tail),
         }));
     } else if o.status != "exit:0" || rep.is_none() {
         parts.push(o.status.clone());
+        let setup = o.stdout.lines().find(|l| l.starts_with("SETUP-ERROR")).unwrap_or("");
+        let panics: Vec<&str> = o.stderr.lines().filter(|l| l.contains("panicked at") || l.starts_with("called `") || l.contains("Please report an issue")).take(4).collect();
         failures.push(serde_json::json!({
             "key": "crash",
-            "what": format!("scenario process ended with {} (N={}, class {}, stride {}): {}", o.status, sc.n, sc.class, sc.stride, stderr_tail.lines().last().unwrap_or("")),
+            "what": format!("scenario process ended with {} (N={}, class {}, stride {}): {} {}", o.status, sc.n, sc.class, sc.stride, setup, panics.join(" / ")),
             "expected": "exit:0", "observed": format!("{}; stderr: {}", o.status, stderr_tail),
         }));
     } else {
@@ -857,8 +1019,8 @@ fn scenario_text(sc: &Scenario) -> String {
         .map(|t| format!("{}{}:u{}{}", t.role, if t.chan >= 0 { format!("#{}", t.chan) } else { String::new() }, t.unit, if t.parent >= 0 { format!("^{}", t.parent) } else { String::new() }))
         .collect();
     format!(
-        "scenario {} seed={} class={} N={} stride={} warm={} jitter={} root={} world={} threads=[{}]",
-        sc.id, sc.seed, sc.class, sc.n, sc.stride, sc.warm, sc.jitter, sc.root, sc.world.id, ts.join(" ")
+        "scenario {} seed={} class={} N={} stride={} warm={} preload={} jitter={} root={} world={} threads=[{}]",
+        sc.id, sc.seed, sc.class, sc.n, sc.stride, sc.warm, sc.preload, sc.jitter, sc.root, sc.world.id, ts.join(" ")
     )
 }
 
